@@ -148,9 +148,7 @@ pub fn run(ctx: &Ctx) -> Report {
             let mut s = Vec::with_capacity(4);
             crate::domains::nth_bytes_upto(&crate::domains::all_bytes(), full_len, i, &mut s);
             check_string(&s, acc);
-            if sample_key(seed, i) < (1u64 << 44) {
-                acc.sample(sample_key(seed, i), json!({"bytes": hx(&s), "ref": format!("{:?}", ref_decode(&s))}));
-            }
+            acc.maybe_sample(sample_key(seed, i), || json!({"bytes": hx(&s), "ref": format!("{:?}", ref_decode(&s))}));
         },
     );
     rep.evaluations += total * 2;
